@@ -99,6 +99,11 @@ fn check(c: &CrashCase, obs: &mut O) -> Verdict {
     let template_links: Vec<(std::ffi::OsString, std::path::PathBuf)> = std::fs::read_dir(&template).map(|d| d.filter_map(|e| e.ok()).filter(|e| e.file_type().map(|t| t.is_symlink()).unwrap_or(false)).filter_map(|e| std::fs::read_link(e.path()).ok().map(|t| (e.file_name(), t))).collect()).unwrap_or_default();
     let template_files: Vec<(std::ffi::OsString, Vec<u8>, u64)> = std::fs::read_dir(&template).map(|d| d.filter_map(|e| e.ok()).filter(|e| !e.file_type().map(|t| t.is_symlink()).unwrap_or(false)).filter_map(|e| { use std::os::unix::fs::MetadataExt; let ino = e.metadata().map(|m| m.ino()).unwrap_or(0); std::fs::read(e.path()).ok().map(|b| (e.file_name(), b, ino)) }).collect()).unwrap_or_default();
     let _ = std::fs::remove_dir_all(&template);
+    // what a run without any cache directory answers for a date (same bank, same day): the post-crash run must either download again and
+    // answer the same, or answer the same from what it found - the rate of an earlier day where the bank has a newer one is a wrong rate
+    let ref_calls = Rc::new(RefCell::new(BTreeMap::new()));
+    let mut lref = RateLoader::new(false, Box::new(acb::fx::io::InMemoryRatesCache::new()), Box::new(CountingRemote { cal: cal.clone(), cutoff: later_today, calls: ref_calls.clone() }), WriteHandle::empty_write_handle());
+    let mut ref_answers: BTreeMap<Date, Option<(Date, rust_decimal::Decimal)>> = BTreeMap::new();
     for p in &points {
         let _ = std::fs::remove_dir_all(&dir);
         let _ = std::fs::create_dir_all(&dir);
@@ -135,6 +140,11 @@ fn check(c: &CrashCase, obs: &mut O) -> Verdict {
                         let detail = format!("cache write interrupted at {:?} (of {total} bytes; prior cache: {}); a later run looking up {d} computes with {} for {}, the bank published {:?}; cache file now ends with {:?}", p, if c.prior_today.is_some() { "older complete file" } else { "none" }, r.foreign_to_local_rate, r.date, truth, tail);
                         return known_or_fail("F-14a", detail);
                     }
+                    let want = ref_answers.entry(d).or_insert_with(|| match guard(|| lref.blocking_get_effective_usd_cad_rate(d)) { Ok(Ok(w)) => Some((w.date, w.foreign_to_local_rate)), _ => None }).clone();
+                    if let Some((wd, wr)) = want { if wd != r.date || wr != r.foreign_to_local_rate {
+                        let _ = std::fs::remove_dir_all(&dir);
+                        return known_or_fail("F-14a", format!("cache write interrupted at {:?} (of {total} bytes; prior cache: {}); a later run looking up {d} neither downloads again nor answers as a run without a cache does: it computes with {} (the rate of {}), the bank's rate for that look-up is {} (of {})", p, if c.prior_today.is_some() { "older complete file" } else { "none" }, r.foreign_to_local_rate, r.date, wr, wd));
+                    } }
                     *outcomes.entry(if calls2.borrow().is_empty() { "served-from-post-crash-cache" } else { "re-downloaded" }).or_insert(0) += 1;
                 }
                 Ok(Err(_)) => { *outcomes.entry("error").or_insert(0) += 1; }
@@ -243,7 +253,7 @@ fn check(c: &CrashCase, obs: &mut O) -> Verdict {
 }
 
 pub fn def() -> PropDef {
-    let mut d = PropDef::new("C14", "fault enumeration: for each generated year content (50-366 rows; rates with 1-10 decimals, below and above 1, zero placeholders for unpublished days) and prior cache state (none / the directory exactly as an earlier complete run of the product left it, hard links and left-over files included, or with the year's file reached through a symbolic link), a run that downloads the year is interrupted at EVERY byte offset of the cache file write (0..len, via the verif_hooks CrashWriter) and at every named step boundary of the write procedure; after each crash a fresh loader (today + 3 days, remote = published calendar) looks up the last three dates present in the file, the first missing date, the interrupted run's date and 5 random dates. In addition, for the last 60 byte offsets of each content: crash, then a COMPLETE run whose download is a few bytes shorter (the bank no longer reports four early observations, nothing else changes), then the look-ups; and for the last 45 byte offsets: a first write interrupted half way (leaving its temporary file), then the re-download interrupted at that offset, then the look-ups. Violation = a look-up returns a rate that differs from the published rate of the date it carries. Non-trivial = crash point strictly inside a row (file does not end in a newline). Distinct = distinct (content, crash point).");
+    let mut d = PropDef::new("C14", "fault enumeration: for each generated year content (50-366 rows; rates with 1-10 decimals, below and above 1, zero placeholders for unpublished days) and prior cache state (none / the directory exactly as an earlier complete run of the product left it, hard links and left-over files included, or with the year's file reached through a symbolic link), a run that downloads the year is interrupted at EVERY byte offset of the cache file write (0..len, via the verif_hooks CrashWriter) and at every named step boundary of the write procedure; after each crash a fresh loader (today + 3 days, remote = published calendar) looks up the last three dates present in the file, the first missing date, the interrupted run's date and 5 random dates. In addition, for the last 60 byte offsets of each content: crash, then a COMPLETE run whose download is a few bytes shorter (the bank no longer reports four early observations, nothing else changes), then the look-ups; and for the last 45 byte offsets: a first write interrupted half way (leaving its temporary file), then the re-download interrupted at that offset, then the look-ups. Violation = a look-up returns a rate that differs from the published rate of the date it carries, or (after a single crash) a rate / date other than a run without any cache directory answers for that look-up. Non-trivial = crash point strictly inside a row (file does not end in a newline). Distinct = distinct (content, crash point).");
     d.level = "fault_enumeration";
     d.exhaustive = true;
     d.assumptions = vec!["crash model: operations persist in program order (what the hook sees); a filesystem that reorders un-synced writes behind a rename is outside this model", "byte offsets are exhaustive per generated content; contents are sampled"];
